@@ -257,7 +257,12 @@ pub fn run(ctx: &Ctx, _args: &Args) -> i32 {
 
         // random longer cases
         let mut rng = Rng::stream(ctx.seed, shard as u64);
-        let names = ["A", "a", "B", "b", "C", "Content-Type", "content-type", "CONTENT-TYPE", "X-Foo", "x-foo", "Set-Cookie", ""];
+        // includes names that are proper prefixes of one another (a comparison that is not an equality would
+        // confuse them) and the empty name
+        let names = [
+            "A", "a", "B", "b", "C", "AB", "Ab", "Content-Type", "content-type", "CONTENT-TYPE", "X-Foo", "x-foo", "X-Foo-Bar", "Set-Cookie",
+            "set-cookie2", "Accept", "ACCEPT-RANGES", "",
+        ];
         let values = ["", "1", "2", "x", "text/html", "a=b; c", "\u{e9}"];
         for _ in 0..(random_cases / jobs as u64) {
             let hn = rng.range(0, 8);
@@ -286,7 +291,7 @@ pub fn run(ctx: &Ctx, _args: &Args) -> i32 {
     finish(
         ctx,
         report,
-        "enumerated: all header lists (len<=3, names {A,a,B}, values {'',1,2}) x all filter sequences of length k over {add,remove,replace,override,default,bogus} x {A,a,b,C} x {x,''}; random longer lists/sequences with mixed-case real header names; each evaluation runs FilterHeaderAction::filter and Action::filter_headers at 3 response codes against the reference fold. non-trivial = the filter sequence changes the header list (enumerated cases distinct by construction; random ones de-duplicated by hash)",
+        "enumerated: all header lists (len<=3, names {A,a,B}, values {'',1,2}) x all filter sequences of length k over {add,remove,replace,override,default,bogus} x {A,a,b,C} x {x,''}; random longer lists/sequences with mixed-case real header names, prefix-related names (Accept / Accept-Ranges, A / AB) and the empty name; each evaluation runs FilterHeaderAction::filter and Action::filter_headers at 3 response codes against the reference fold. non-trivial = the filter sequence changes the header list (enumerated cases distinct by construction; random ones de-duplicated by hash)",
         &["rustc/std", "serde_json (to build the Action)", "str::to_lowercase as the meaning of case-insensitive"],
         started,
         1000,
